@@ -571,6 +571,7 @@ def _r6(repo: Repo, ctx) -> None:
     _r9(repo, ctx)
     _r10(repo, ctx)
     _r11(repo, ctx)
+    _r12(repo, ctx)
 
 
 def _roots(fn_node: ast.AST, name: str, params: Set[str],
@@ -865,3 +866,49 @@ def _r11(repo: Repo, ctx) -> None:
     if n < 6:
         raise AnalysisError(f'C12.R11: only {n} element-wise comparisons '
                             f'of two subtype lists found')
+
+
+
+def _r12(repo: Repo, ctx) -> None:
+    """C12.R12 the common type of two collection types is computed from
+    their element types.  `find_common_implicitly_castable_type` of the
+    collection classes may hand back one of its two operands unchanged only
+    when the two are equal: "castable one way" is not "is the common type"
+    (user scalars over one base are implicitly castable into each other in
+    both directions, their common type is the base) -- a value of the other
+    operand's element type is then reported under the wrong type."""
+    ctx.floor('C12.R12', 2)
+    m = repo.module('edb.schema.types')
+    n = 0
+    for cname in ('Array', 'Tuple', 'Range', 'MultiRange'):
+        c = m.classes.get(cname)
+        f = c.methods.get('find_common_implicitly_castable_type') if c \
+            else None
+        if f is None:
+            continue
+        g = CFG(f.node)
+        other = f.params()[1]
+        eq = [t.id for t in g.nodes if t.kind == 'test' and norm(t.ast) in (
+            f'self == {other}', f'{other} == self')]
+        for r in g.nodes:
+            if r.kind != 'stmt' or not isinstance(r.ast, ast.Return) or \
+                    not isinstance(r.ast.value, ast.Tuple):
+                continue
+            last = r.ast.value.elts[-1]
+            if not (isinstance(last, ast.Name) and last.id in ('self', other)):
+                continue
+            n += 1
+            ok = any(g.edge_dominates(t, 'T', r.id) for t in eq)
+            ctx.saw(f)
+            ctx.ob('C12.R12', f'{cname}.find_common_implicitly_castable_type:'
+                   f'returns-{last.id}', ok,
+                   f'{cname}.find_common_implicitly_castable_type hands back '
+                   f'`{last.id}` as the common type on a path that has not '
+                   f'established that the two types are equal: for element '
+                   f'types that are merely castable into each other the '
+                   f'common type is neither operand',
+                   f'{f.module.rel()}:{r.lineno}',
+                   sample=f'return .., {last.id} only under self == {other}')
+    if n < 2:
+        raise AnalysisError(f'C12.R12: only {n} operand-returning exits of '
+                            f'the collection common-type methods found')
